@@ -88,7 +88,7 @@ theorem codePass_refines (lt : α → α → Bool) (comb) (pick) (cfg : Cfg) (re
       have hsplit := codeGroups_split _ _ _ _ _ _ _ hgs
       refine ⟨gs.map List.length, ?_⟩
       simp only [pass, hsplit]
-      rw [storeRuns_eq] at h ⊢
+      rw [storeRunsLogged_merge, storeRuns_eq] at h ⊢
       simp only [Except.ok.injEq] at h
       rw [h]
 
